@@ -197,16 +197,23 @@ Fixpoint peval (env : list port) (e : pexpr) : res port :=
   end.
 
 (* base port descriptions: base number b owns simulation signals (b, _) resp. IOPorts 2b (io / p) and 2b+1 (n) *)
+(* how `invert=` is given: omitted (default False), a bool ((invert,) * width), or an iterable *)
+Inductive invspec := InvDefault | InvBool (b : bool) | InvList (l : list bool).
+Definition norm_inv (w : nat) (i : invspec) : list bool :=
+  match i with InvDefault => repeat false w | InvBool b => repeat b w | InvList l => l end.
+(* `direction=` of SingleEndedPort / DifferentialPort defaults to Direction.Bidir *)
+Definition norm_dir (d : option dir) : dir := match d with Some x => x | None => DBidir end.
+
 Inductive bdesc :=
-| BSim (d : dir) (w : nat) (inv : list bool)
-| BSingle (d : dir) (w : nat) (inv : list bool)
-| BDiff (d : dir) (w : nat) (inv : list bool).
+| BSim (d : dir) (w : nat) (inv : invspec)
+| BSingle (d : option dir) (w : nat) (inv : invspec)
+| BDiff (d : option dir) (w : nat) (inv : invspec).
 
 Definition mk_base (b : nat) (x : bdesc) : res port :=
   match x with
-  | BSim d w inv => mk_sim b d w inv
-  | BSingle d w inv => mk_single (base_refs (2 * b) w) inv d
-  | BDiff d w inv => mk_diff (base_refs (2 * b) w) (base_refs (2 * b + 1) w) inv d
+  | BSim d w inv => mk_sim b d w (norm_inv w inv)
+  | BSingle d w inv => mk_single (base_refs (2 * b) w) (norm_inv w inv) (norm_dir d)
+  | BDiff d w inv => mk_diff (base_refs (2 * b) w) (base_refs (2 * b + 1) w) (norm_inv w inv) (norm_dir d)
   end.
 
 Fixpoint mk_env_from (b : nat) (xs : list bdesc) : res (list port) :=
@@ -230,6 +237,22 @@ Definition ffbuffer_check (bd pd : dir) (idom odom : bool) : res unit :=
   if dir_eqb bd DOut && idom then Err EValue
   else if dir_eqb bd DIn && odom then Err EValue
   else buffer_check bd pd.
+
+(* clock domains by name: "sync", "a", "b" *)
+Inductive dom := DSync | DA | DB.
+Definition dom_default (d : option dom) : dom := match d with Some x => x | None => DSync end.   (* `x or "sync"` *)
+(* FFBuffer.__init__: the domains the registers will use (None: that direction has no register) *)
+Definition ff_domains (bd : dir) (idom odom : option dom) : res (option dom * option dom) :=
+  bind (if dir_eqb bd DOut then match idom with Some _ => Err EValue | None => Ok None end
+        else Ok (Some (dom_default idom))) (fun i =>
+  bind (if dir_eqb bd DIn then match odom with Some _ => Err EValue | None => Ok None end
+        else Ok (Some (dom_default odom))) (fun o => Ok (i, o))).
+Definition ffbuffer_init (bd pd : dir) (idom odom : option dom) : res (option dom * option dom) :=
+  bind (ff_domains bd idom odom) (fun r => bind (buffer_check bd pd) (fun _ => Ok r)).
+(* which clocks have their active edge in an event *)
+Record ticks := Tk { t_sync : bool; t_a : bool; t_b : bool }.
+Definition dom_ticks (t : ticks) (d : option dom) : bool :=
+  match d with Some DSync => t_sync t | Some DA => t_a t | Some DB => t_b t | None => false end.
 
 (* ------------------------------------------------------------------ Buffer.elaborate on a SimulationPort *)
 (* values of one signal kind (i, o or oe) of all base ports, bit by bit *)
@@ -317,6 +340,15 @@ Definition ff_comb (bd : dir) (p : port) (s : ffst) (st : pstate) : pstate * Z :
 Definition ff_edge (bd : dir) (p : port) (ei eo : bool) (o oe : Z) (st : pstate) (s : ffst) : ffst :=
   let w := plen p in
   let bi := snd (ff_comb bd p s st) in
+  FF (if ei && negb (dir_eqb bd DOut) then mask w bi else f_i s)
+     (if eo && negb (dir_eqb bd DIn) then mask w o else f_o s)
+     (if eo && negb (dir_eqb bd DIn) then mask 1 oe else f_oe s).
+
+(* the same step for an arbitrary inner combinational buffer cmb (used by the harness for both the per-bit
+   semantics and the simulator's lowering below); ff_edge bd p = ff_edge_with (buffer_comb bd p) (plen p) bd *)
+Definition ff_edge_with (cmb : Z -> Z -> pstate -> pstate * Z) (w : Z) (bd : dir)
+                        (ei eo : bool) (o oe : Z) (st : pstate) (s : ffst) : ffst :=
+  let bi := snd (cmb (f_o s) (f_oe s) st) in
   FF (if ei && negb (dir_eqb bd DOut) then mask w bi else f_i s)
      (if eo && negb (dir_eqb bd DIn) then mask w o else f_o s)
      (if eo && negb (dir_eqb bd DIn) then mask 1 oe else f_oe s).
@@ -441,3 +473,50 @@ Fixpoint lv_assign (st : bstate) (v : lval) (arg : Z) : bstate :=
                                  r (off + zlen (lv_wires p))
                   end) st ps 0
   end.
+
+(* the Value tree of a simulation port's o / oe / i members, following SimulationPort.__getitem__/__add__
+   (Value.__getitem__: int -> Slice(v, j, j+1); step 1 -> Slice(v, a, b); other steps -> Cat(v[i] for i in range)) *)
+Definition lv_len (v : lval) : Z := zlen (lv_wires v).
+Definition lv_bit (v : lval) (i : Z) : lval := LSlice v (Z.to_nat i) (S (Z.to_nat i)).
+Definition lv_index (v : lval) (i : Z) : lval := lv_bit v (if i <? 0 then i + lv_len v else i).
+Definition lv_slice (v : lval) (k : pyslice) : lval :=
+  match slice_indices (lv_len v) k with
+  | Ok (a, b, s) => if s =? 1 then LSlice v (Z.to_nat a) (Z.to_nat b)
+                    else LCat (map (lv_bit v) (range_list a b s))
+  | Err _ => v
+  end.
+Fixpoint peval_lv (env : list port) (e : pexpr) : lval :=
+  match e with
+  | PBase b => match nth_error env b with Some p => LSig b (length (p_refs p)) | None => LCat [] end
+  | PIdx e i => lv_index (peval_lv env e) i
+  | PSlice e k => lv_slice (peval_lv env e) k
+  | PAdd a b => LCat [peval_lv env a; peval_lv env b]
+  | PInv e => peval_lv env e
+  end.
+
+(* Buffer.elaborate on a simulation port as the Python simulator executes it: like buffer_comb, but the two
+   assignments to port.o / port.oe go through lv_assign on the port's Value tree v *)
+Definition buffer_comb_lv (bd : dir) (p : port) (v : lval) (o oe : Z) (st : pstate) : pstate * Z :=
+  let w := p_refs p in
+  let m := inv_mask (p_inv p) in
+  let o_inv := if m =? 0 then o else Z.lxor o m in
+  let st1 := match bd with
+             | DIn => st
+             | _ => PS (s_i st) (lv_assign (s_o st) v o_inv)
+                       (lv_assign (s_oe st) v (replicate_bit (length w) (Z.odd oe)))
+             end in
+  let i_inv := match bd with
+               | DIn => read_cat (s_i st) w
+               | DBidir => loopback st1 w
+               | DOut => 0
+               end in
+  (st1, match bd with
+        | DOut => 0
+        | _ => if m =? 0 then i_inv else Z.lxor i_inv m
+        end).
+
+(* FFBuffer.elaborate on real ports: the same cells as Buffer plus the register stages between the buffer's
+   members and the cells: (number of registers, domain) on the o/oe path and on the i path *)
+Definition ff_regs (r : option dom * option dom) : (nat * option dom) * (nat * option dom) :=
+  ((match snd r with Some _ => 1%nat | None => 0%nat end, snd r),
+   (match fst r with Some _ => 1%nat | None => 0%nat end, fst r)).
